@@ -505,7 +505,7 @@ func dynamicProbes(w *Workload, e *Expect, o *Outcome, c core.Counters) {
 // validates the harness's notion of "certainly bad"; a tree on which garbage compiles
 // violates C06 outright, and the case is reported like any other run.
 func selfcheck(t *testing.T, c core.Cfg, part *core.Partial) {
-	for _, kind := range []string{"garbage-import", "garbage-body"} {
+	for _, kind := range []string{"garbage-import", "garbage-body", "garbage-bracket"} {
 		w := &Workload{Family: "plain", Template: "selfcheck", Files: []*FileSpec{{ID: 0, Path: "f0.sysl", Kind: "sysl"}}}
 		w.Files[0].Text = render(w, w.Files[0])
 		ft := Fault{File: 0, Kind: kind, Certain: true}
